@@ -120,7 +120,7 @@ func onePass(p *packages.Package, keep map[string]bool, overlay map[string][]byt
 		}
 		for _, d := range f.Decls {
 			fd, ok := d.(*ast.FuncDecl)
-			if !ok || fd.Body == nil || keep[funcKey(fd)] || ast.IsExported(fd.Name.Name) || fd.Name.Name == "init" || fd.Name.Name == "main" || fd.Type.TypeParams != nil {
+			if !ok || fd.Body == nil || keep[funcKey(fd)] || fd.Name.Name == "init" || fd.Name.Name == "main" || fd.Type.TypeParams != nil {
 				continue
 			}
 			obj, _ := info.Defs[fd.Name].(*types.Func)
